@@ -221,7 +221,7 @@ impl<A> ConfusionMatrix<A> {
         let mut cms = Vec::with_capacity(n * (n - 1) / 2);
 
         for i in 0..n {
-            for j in i..n {
+            for j in (i + 1)..n {
                 let tp = self.matrix[(i, i)];
                 let fp = self.matrix[(i, j)];
                 let _fn = self.matrix[(j, i)];
